@@ -2646,8 +2646,14 @@ http_srv_run(Params *p)
 		raw_connect(raw, w.port);
 		int  nreq   = 1 + (int) W(0, 4);
 		long mutsel = p->draw(ci == 0 ? "mut" : "mut2", 0, 2);
-		int  mutat  = mutsel == 1 ? (int) W(0, nreq - 1) : -1;
 		bool pipelined = !(g_avoid & AV_HTTP_PIPELINE) && W(0, 3) != 1;
+		if (pipelined && mutsel != 1 && g_net == 0 && W(0, 5) == 0) {
+			// a long train of requests: more bytes than the server's read buffer
+			// holds arrive at once, with complete requests in front of a cut one
+			nreq = (int) W(30, 80);
+			sim_probe("c16_http_srv_long_train");
+		}
+		int  mutat  = mutsel == 1 ? (int) W(0, nreq - 1) : -1;
 		if ((g_avoid & AV_HTTP_ISERR) && mutat >= 0)
 			mutat = nreq - 1;
 		std::vector<HReq> reqs;
